@@ -259,6 +259,8 @@ CATALOG: List[Cfg] = [
        keys_quick=2, keys_thorough=4, time_limit=8, depth=9),
     _c("cleaner-4x2x1-none", "cleaner", "Cleaner(G.cleaner.RandomGenerator(4, 2, 1))", kind="awkward",
        keys_quick=2, keys_thorough=4, time_limit=8, depth=9),
+    _c("cleaner-4x3x2-pen025-T4", "cleaner", "Cleaner(G.cleaner.RandomGenerator(4, 3, 2), time_limit=4, "
+       "penalty_per_timestep=0.25)", kind="awkward", keys_quick=1, keys_thorough=3, time_limit=4),
     _c("cleaner-default", "cleaner", "Cleaner()", kind="default", depth=2, keys_quick=1,
        keys_thorough=2, time_limit=100),
     # ---------------- Connector
@@ -270,6 +272,9 @@ CATALOG: List[Cfg] = [
        keys_quick=2, keys_thorough=4, time_limit=4),
     _c("connector-rw5x3-T2", "connector", "Connector(G.connector.RandomWalkGenerator(5, 3), time_limit=2)",
        kind="awkward", keys_quick=1, keys_thorough=4, time_limit=2),
+    _c("connector-3x2-rw-T3", "connector", "Connector(G.connector.UniformRandomGenerator(3, 2), "
+       "reward_fn=R.connector.DenseRewardFn(2.0, -0.5), time_limit=3)", kind="awkward", keys_quick=2,
+       keys_thorough=4, time_limit=3),
     _c("connector-default", "connector", "Connector()", kind="default", depth=1, keys_quick=1,
        keys_thorough=1, time_limit=50, quick=False),
     # ---------------- CVRP
@@ -296,6 +301,9 @@ CATALOG: List[Cfg] = [
     _c("lbf-5-nonorm-pen-T2", "lbf", "LevelBasedForaging(G.lbf.RandomGenerator(5, 2, 1, fov=5), "
        "normalize_reward=False, penalty=1.0, time_limit=2)", kind="awkward", keys_quick=1,
        keys_thorough=3, time_limit=2),
+    # one option at its non-default value, all others default (penalty stays 0.0)
+    _c("lbf-5-nonorm-T2", "lbf", "LevelBasedForaging(G.lbf.RandomGenerator(5, 2, 1, fov=5), "
+       "normalize_reward=False, time_limit=2)", kind="awkward", keys_quick=1, keys_thorough=3, time_limit=2),
     _c("lbf-default", "lbf", "LevelBasedForaging()", kind="default", depth=1, keys_quick=1,
        keys_thorough=2, time_limit=100),
     # ---------------- Maze
@@ -319,6 +327,9 @@ CATALOG: List[Cfg] = [
     # constructor time limit shorter than the generator's buffer (`max_step`): the two must not be conflated
     _c("mmst-12-T2-buf5", "mmst", "MMST(G.mmst.SplitRandomGenerator(12, 18, 4, 2, 3, 5), time_limit=2)",
        kind="awkward", keys_quick=1, keys_thorough=3, time_limit=2),
+    _c("mmst-12-T2-rw", "mmst", "MMST(G.mmst.SplitRandomGenerator(12, 18, 4, 2, 3, 2), "
+       "reward_fn=R.mmst.DenseRewardFn(reward_values=(5.0, -2.0, -3.0)), time_limit=2)", kind="awkward",
+       keys_quick=1, keys_thorough=2, time_limit=2),
     _c("mmst-default", "mmst", "MMST()", kind="default", depth=1, keys_quick=1, keys_thorough=1,
        time_limit=70, quick=False),
     # ---------------- MultiCVRP
@@ -365,6 +376,8 @@ CATALOG: List[Cfg] = [
     _c("sokoban-simple-sparse-T11", "sokoban", "Sokoban(G.sokoban.SimpleSolveGenerator(), "
        "reward_fn=R.sokoban.SparseReward(), time_limit=11)", kind="awkward", keys_quick=1, keys_thorough=1,
        time_limit=11, ref_states_quick=20000, quick=False),
+    _c("sokoban-open-T4", "sokoban", "Sokoban(INJ.sokoban_open_levels(), time_limit=4)", kind="injected",
+       instance_fields=("fixed_grid", "variable_grid"), n_instances=3, time_limit=4),
     _c("sokoban-toy-T5", "sokoban", "Sokoban(G.sokoban.ToyGenerator(), time_limit=5)", keys_quick=2,
        keys_thorough=4, time_limit=5),
     _c("sokoban-toy-sparse-T2", "sokoban", "Sokoban(G.sokoban.ToyGenerator(), "
